@@ -465,6 +465,10 @@ def fee2(fr):
     return s
 
 
+class SearchTooLarge(Exception):
+    pass
+
+
 def subsets_with_sum(idx, qty, target):
     """All subsets (as tuples of indices) of idx whose quantities add up to target; quantities are positive, so the
     search is cut as soon as a partial sum exceeds the target (far fewer nodes than 2^n for many small fills)."""
@@ -479,7 +483,9 @@ def subsets_with_sum(idx, qty, target):
             if acc:
                 out.append(tuple(acc))
             return
-        if k == len(idx) or left < 0 or suffix[k] < left or len(out) > 5000:
+        if len(out) > 20000:
+            raise SearchTooLarge()       # the set is left unjudged rather than judged on a partial enumeration
+        if k == len(idx) or left < 0 or suffix[k] < left:
             return
         acc.append(idx[k])
         go(k + 1, left - qty[idx[k]], acc)
@@ -636,7 +642,12 @@ def run(tier):
                 V.unjudged += 1
                 continue
             V.bump("sets_judged")
-            verdicts = [judge(sc, res.get(cid, {})) for cid in variants]      # every file order is judged on its own first
+            try:
+                verdicts = [judge(sc, res.get(cid, {})) for cid in variants]      # every file order is judged on its own first
+            except SearchTooLarge:
+                V.unjudged += 1
+                V.bump("sets_unjudged_search_too_large")
+                continue
             f = next((dict(v, file_order=cid) if k else v for k, (cid, v) in enumerate(zip(variants, verdicts)) if v), None)
             sig_extra = {}
             if f and f["what"] == "a consistent set of confirmations is rejected":
@@ -650,7 +661,10 @@ def run(tier):
                 def n_combos(b):
                     cands = [t for t in sc["trades"] if t["sym"] == b["sym"] and t.get("act", "Sell") == "Sell"
                              and b["date"] <= t["td"] <= b["date"] + datetime.timedelta(days=5)]
-                    return len(subsets_with_sum(list(range(len(cands))), {i_: t_["qty"] for i_, t_ in enumerate(cands)}, b["sold"]))
+                    try:
+                        return len(subsets_with_sum(list(range(len(cands))), {i_: t_["qty"] for i_, t_ in enumerate(cands)}, b["sold"]))
+                    except SearchTooLarge:
+                        return 2
                 # ... or some benefit has more than one combination of fills adding up to its sold shares (the matcher
                 # then picks by closeness to a price printed in cents and never revisits the choice)
                 other_ok = other_ok or any(n_combos(b) >= 2 for b in bs_)
